@@ -39,8 +39,14 @@ def registry():
     return _REG
 
 
+_BY_NAME = None
+
+
 def by_name():
-    return {rt.name: rt for rt in registry()}
+    global _BY_NAME
+    if _BY_NAME is None:
+        _BY_NAME = {rt.name: rt for rt in registry()}
+    return _BY_NAME
 
 
 def vs_model(impl, model):
